@@ -2,6 +2,7 @@ package main
 
 import (
 	"fmt"
+	"go/token"
 	"go/types"
 	"strings"
 
@@ -52,7 +53,14 @@ func runC20(r *Run) {
 	c20Callers(r, "who:AddSequencedLeaves", c20rpc, c20plc+"addSequencedLeaves$*")
 	c20Callers(r, "who:addSequencedLeaves", c20plc+"addSequencedLeaves", c20ctl+"runSubmitter")
 	c20Callers(r, "who:buildLogLeaf", c20plc+"buildLogLeaf", c20plc+"addSequencedLeaves")
-	c20Callers(r, "who:runSubmitter", c20ctl+"runSubmitter", c20ctl+"fetchTail$*")
+	submitterOwner := c20ctl + "fetchTail$*"
+	if ft := r.P.Func(c20ctl + "fetchTail"); ft != nil {
+		if tf, _ := c20Transfer(ft); tf != ft {
+			// the transfer part of fetchTail lives in a function of its own (only fetchTail calls it: C20.R4)
+			submitterOwner = FuncName(tf) + "$*"
+		}
+	}
+	c20Callers(r, "who:runSubmitter", c20ctl+"runSubmitter", submitterOwner)
 	c20Callers(r, "who:verifyConsistency", c20ctl+"verifyConsistency", c20ctl+"fetchTail")
 	c20Callers(r, "who:fetchTail", c20ctl+"fetchTail", c20ctl+"Run")
 
@@ -220,6 +228,7 @@ func c20Batch(r *Run) {
 	}
 	entry = strings.TrimSuffix(strings.TrimPrefix(entry, "&("), ")")
 	i := ""
+	var leavesPhi *ssa.Phi
 	if strings.HasPrefix(entry, "p2.Entries[") && strings.HasSuffix(entry, "]") {
 		i = entry[len("p2.Entries[") : len(entry)-1]
 	}
@@ -234,6 +243,13 @@ func c20Batch(r *Run) {
 				slot = true
 			}
 		}
+		if !slot {
+			// the same slice built by appending: one leaf per iteration of the loop that counts
+			// the entries from zero, so the leaf of entry i lands at position i
+			if ph := c20AppendLoop(r, fn, bl, i); ph != nil {
+				slot, leavesPhi = true, ph
+			}
+		}
 		r.Check(k+"slot", slot, r.Where(bl), "the leaf built for entry "+i+" is stored at position "+i+" of a slice of len(b.Entries) leaves")
 	}
 	retry := CallsTo(fn, "(*backoff.Backoff).Retry")
@@ -243,7 +259,104 @@ func c20Batch(r *Run) {
 			return glob(c20plc+"buildLogLeaf(*)#1", d) || errKind(sgRetVals(ret)[0]) == "non", "returns " + d
 		}})
 	r.ExpectStores(fn, k+"request.LogId", "&(new:trillian.AddSequencedLeavesRequest#*.LogId)", "p0.treeID", 1)
-	r.ExpectStores(fn, k+"request.Leaves", "&(new:trillian.AddSequencedLeavesRequest#*.Leaves)", "make:[]*trillian.LogLeaf(len(p2.Entries))", 1)
+	if leavesPhi != nil {
+		sts := r.StoresTo(fn, "&(new:trillian.AddSequencedLeavesRequest#*.Leaves)")
+		okL := len(sts) >= 1
+		for _, st := range sts {
+			okL = okL && st.Val == ssa.Value(leavesPhi)
+		}
+		r.Check(k+"request.Leaves", okL, r.FnPos(fn), "the request carries the slice the loop over the batch's entries appended the leaves to")
+	} else {
+		r.ExpectStores(fn, k+"request.Leaves", "&(new:trillian.AddSequencedLeavesRequest#*.Leaves)", "make:[]*trillian.LogLeaf(len(p2.Entries))", 1)
+	}
+}
+
+// c20AppendLoop recognises the append form of "leaf i goes to position i of a slice of
+// len(p2.Entries) leaves": a slice that is empty before the loop whose counter is named i,
+// and to which every iteration that goes round appends exactly one element, result 0 of the
+// buildLogLeaf call bl.  The counter must run 0, 1, 2, … up to len(p2.Entries), so that the
+// number of elements appended before iteration i is i.  Returns the slice as it is when the
+// loop is left (the loop-header φ), or nil.
+func c20AppendLoop(r *Run, fn *ssa.Function, bl ssa.CallInstruction, i string) *ssa.Phi {
+	var n int
+	if _, err := fmt.Sscanf(i, "it@%d", &n); err != nil || fmt.Sprintf("it@%d", n) != i || n < 0 || n >= len(fn.Blocks) {
+		return nil
+	}
+	head := fn.Blocks[n]
+	// the counter of that loop: from zero, by one (range loop: pre-index −1, +1 before each iteration)
+	counters := 0
+	okCounter := false
+	var slices []*ssa.Phi
+	for _, in := range head.Instrs {
+		ph, ok := in.(*ssa.Phi)
+		if !ok {
+			break
+		}
+		switch {
+		case isRangePre(ph):
+			counters++
+			okCounter = true
+		case isInduction(ph):
+			counters++
+			okCounter = true
+			for _, e := range ph.Edges {
+				if b, isB := e.(*ssa.BinOp); isB && b.X == ssa.Value(ph) {
+					if b.Op != token.ADD || !isConstInt(b.Y, 1) {
+						okCounter = false
+					}
+				} else if !isConstInt(e, 0) {
+					okCounter = false
+				}
+			}
+		default:
+			if _, isSl := ph.Type().Underlying().(*types.Slice); isSl {
+				slices = append(slices, ph)
+			}
+		}
+	}
+	if counters != 1 || !okCounter {
+		return nil
+	}
+	// the loop runs while the counter is below len(p2.Entries)
+	ifi, ok := head.Instrs[len(head.Instrs)-1].(*ssa.If)
+	if !ok || r.D.D(ifi.Cond) != "("+i+" < len(p2.Entries))" {
+		return nil
+	}
+	for _, ph := range slices {
+		ok := true
+		backs := 0
+		for k, e := range ph.Edges {
+			if head.Dominates(head.Preds[k]) {
+				// back edge: append(φ, [bl#0])
+				backs++
+				c, isC := e.(*ssa.Call)
+				if !isC {
+					ok = false
+					continue
+				}
+				b, isB := c.Call.Value.(*ssa.Builtin)
+				if !isB || b.Name() != "append" || len(c.Call.Args) != 2 || c.Call.Args[0] != ssa.Value(ph) {
+					ok = false
+					continue
+				}
+				el, known := sliceElems(c.Call.Args[1], 0)
+				if !known || len(el) != 1 {
+					ok = false
+					continue
+				}
+				ex, isEx := el[0].(*ssa.Extract)
+				if !isEx || ex.Index != 0 || ex.Tuple != bl.Value() {
+					ok = false
+				}
+			} else if el, known := sliceElems(e, 0); !known || len(el) != 0 {
+				ok = false // not empty when the loop is entered
+			}
+		}
+		if ok && backs >= 1 {
+			return ph
+		}
+	}
+	return nil
 }
 
 // ---- R3 ------------------------------------------------------------------------
@@ -373,29 +486,126 @@ func c20Retry(r *Run) {
 
 // ---- R4 ------------------------------------------------------------------------
 
+// c20Transfer locates the function that runs the fetcher for fetchTail: fetchTail itself, or
+// the one module function fetchTail calls (directly, once) that contains the Fetcher.Run call —
+// the transfer part may have been moved into a function of its own.  call is fetchTail's call
+// of that function (nil when it is fetchTail itself).
+func c20Transfer(fn *ssa.Function) (tf *ssa.Function, call ssa.CallInstruction) {
+	if len(CallsTo(fn, "(*scanner.Fetcher).Run")) > 0 {
+		return fn, nil
+	}
+	n := 0
+	eachInstr(fn, func(in ssa.Instruction) {
+		ci, ok := in.(ssa.CallInstruction)
+		if !ok {
+			return
+		}
+		if _, isGo := in.(*ssa.Go); isGo {
+			return
+		}
+		if _, isDefer := in.(*ssa.Defer); isDefer {
+			return
+		}
+		cal := ci.Common().StaticCallee()
+		if cal == nil || cal.Parent() != nil || len(cal.Blocks) == 0 || fnPkg(cal) != fnPkg(fn) {
+			return
+		}
+		if len(CallsTo(cal, "(*scanner.Fetcher).Run")) > 0 {
+			n++
+			tf, call = cal, ci
+		}
+	})
+	if n != 1 {
+		return fn, nil
+	}
+	return tf, call
+}
+
 func c20FetchTail(r *Run) {
 	fn := r.Fn(c20ctl + "fetchTail")
 	if fn == nil {
 		return
 	}
 	k := "fetchTail:"
-	run := r.OneCall(fn, k+"fetcher.Run", "(*scanner.Fetcher).Run")
+	tf, tcall := c20Transfer(fn)
+	split := tcall != nil
+	if split {
+		r.Funcs[FuncName(tf)] = true
+	}
+	run := r.OneCall(tf, k+"fetcher.Run", "(*scanner.Fetcher).Run")
 	prep := r.OneCall(fn, k+"fetcher.Prepare", "(*scanner.Fetcher).Prepare")
 	vc := r.OneCall(fn, k+"verifyConsistency", c20ctl+"verifyConsistency")
 	root := r.OneCall(fn, k+"getRoot", c20plc+"getRoot")
 	if run == nil || prep == nil || vc == nil || root == nil {
 		return
 	}
+	// what starts the fetcher, seen from fetchTail: the Run call, or the call of the function
+	// that contains it (which nothing else may call)
 	markers := []ssa.Instruction{run}
+	tfErr := "" // the error the transfer function reports to fetchTail
+	parentCtx := "p1"
+	if split {
+		markers = []ssa.Instruction{tcall}
+		c20Callers(r, "who:"+tf.Name(), FuncName(tf), c20ctl+"fetchTail")
+		res := tf.Signature.Results()
+		if res.Len() == 0 || types.TypeString(res.At(res.Len()-1).Type(), nil) != "error" {
+			r.Fail(k+"transfer.error", r.FnPos(tf), "undecided: "+FuncName(tf)+" runs the fetcher but does not report an error")
+			return
+		}
+		tfErr = FuncName(tf) + "(*)"
+		if res.Len() > 1 {
+			tfErr += fmt.Sprintf("#%d", res.Len()-1)
+		}
+		// the parameter(s) of the transfer function that carry fetchTail's own context
+		var alts []string
+		for j, a := range CallArgs(tcall) {
+			if r.D.D(a) == "p1" {
+				alts = append(alts, fmt.Sprintf("p%d", j))
+			}
+		}
+		if len(alts) == 0 {
+			r.Fail(k+"transfer.context", r.Where(tcall), "undecided: "+FuncName(tf)+" is not handed fetchTail's context")
+			return
+		}
+		parentCtx = strings.Join(alts, " || ")
+	}
+	withCancel := func(i int) string {
+		var alts []string
+		for _, p := range strings.Split(parentCtx, " || ") {
+			alts = append(alts, fmt.Sprintf("context.WithCancel(%s)#%d", p, i))
+		}
+		return strings.Join(alts, " || ")
+	}
 	sthSize := "(*scanner.Fetcher).Prepare(*)#0.TreeSize"
-	r.SgBlocked(fn, k+"gate[destination-root-unavailable]", "fetcher.Run", markers, sgNil(c20plc+"getRoot(*)#2", "non"))
+	// how getRoot delivers the destination's size, root hash and error (separate results, or
+	// fields of a struct result)
+	shape := c20RootShape(r, true)
+	r.SgBlocked(fn, k+"gate[destination-root-unavailable]", "fetcher.Run", markers, sgNil(c20plc+"getRoot(*)"+shape.err, "non"))
 	r.SgBlocked(fn, k+"gate[source-sth-unavailable]", "fetcher.Run", markers, sgNil("(*scanner.Fetcher).Prepare(*)#1", "non"))
 	r.SgBlocked(fn, k+"gate[source-not-past-begin]", "fetcher.Run", markers, sgOrd(sthSize, "p2", "<,="))
 	r.SgBlocked(fn, k+"gate[source-inconsistent]", "fetcher.Run", markers, sgNil(c20ctl+"verifyConsistency(*)", "non"))
-	r.ExpectArg(vc, k+"consistency.dest-size", 2, c20plc+"getRoot(*)#0")
-	r.ExpectArg(vc, k+"consistency.dest-root", 3, c20plc+"getRoot(*)#1")
-	r.ExpectArg(vc, k+"consistency.source-sth", 4, "(*scanner.Fetcher).Prepare(*)#0")
-	r.Check(k+"one-fetcher", CallArgs(run)[0] == CallArgs(prep)[0] && glob("scanner.NewFetcher(*)", r.D.D(CallArgs(run)[0])), r.Where(run), "Run is called on the fetcher that was prepared: "+r.D.D(CallArgs(run)[0]))
+	// verifyConsistency is handed the destination size and root hash getRoot delivered and the
+	// source STH Prepare delivered — each in the parameter(s) the callee reads them from
+	roles := c20ConsistencyRoles(r, vc, shape)
+	r.Check(k+"consistency.dest-size", roles.size != "", r.Where(vc), "verifyConsistency gets the destination tree size "+c20plc+"getRoot(*)"+shape.size+roles.how("size"))
+	r.Check(k+"consistency.dest-root", roles.hash != "", r.Where(vc), "verifyConsistency gets the destination root hash "+c20plc+"getRoot(*)"+shape.hash+roles.how("hash"))
+	r.Check(k+"consistency.source-sth", roles.sth != "", r.Where(vc), "verifyConsistency gets the source STH (*scanner.Fetcher).Prepare(*)#0"+roles.how("sth"))
+	if !split {
+		r.Check(k+"one-fetcher", CallArgs(run)[0] == CallArgs(prep)[0] && glob("scanner.NewFetcher(*)", r.D.D(CallArgs(run)[0])), r.Where(run), "Run is called on the fetcher that was prepared: "+r.D.D(CallArgs(run)[0]))
+	} else {
+		// Run's receiver is a parameter of the transfer function, bound to the prepared fetcher
+		ok, got := false, r.D.D(CallArgs(run)[0])
+		if par, isPar := CallArgs(run)[0].(*ssa.Parameter); isPar {
+			for j, q := range tf.Params {
+				if q == par && j < len(CallArgs(tcall)) {
+					a := CallArgs(tcall)[j]
+					got = r.D.D(a)
+					ok = a == CallArgs(prep)[0] && glob("scanner.NewFetcher(*)", got)
+				}
+			}
+		}
+		r.Check(k+"one-fetcher", ok, r.Where(run), "Run is called on the fetcher that was prepared: "+got)
+	}
 	if nf := r.OneCall(fn, k+"NewFetcher", "scanner.NewFetcher"); nf != nil {
 		r.ExpectArg(nf, k+"source-client", 0, "p0.ctClient")
 	}
@@ -405,9 +615,20 @@ func c20FetchTail(r *Run) {
 		switch {
 		case glob(sthSize, v):
 			m := []ssa.Instruction{ret}
-			r.SgBlocked(fn, k+"done[fetch-error]", "return (sth.TreeSize, nil)", m, sgNil("(*scanner.Fetcher).Run(*)", "non"))
-			r.SgBlocked(fn, k+"done[cancelled]", "return (sth.TreeSize, nil)", m, sgNil("iface(context.Context).Err(*)", "non"))
-			for _, c := range CallsTo(fn, "iface(context.Context).Err") {
+			what := "return (sth.TreeSize, nil)"
+			tm, tfn := m, fn
+			if split {
+				// fetchTail reports the size only if the transfer function reported no error,
+				// and that function reports none only if …
+				r.SgBlocked(fn, k+"done[transfer-error]", what, m, sgNil(tfErr, "non"))
+				tm, tfn, what = nil, tf, "return of a nil error"
+				for _, tr := range sgOkReturns(tf) {
+					tm = append(tm, tr)
+				}
+			}
+			r.SgBlocked(tfn, k+"done[fetch-error]", what, tm, sgNil("(*scanner.Fetcher).Run(*)", "non"))
+			r.SgBlocked(tfn, k+"done[cancelled]", what, tm, sgNil("iface(context.Context).Err(*)", "non"))
+			for _, c := range CallsTo(tfn, "iface(context.Context).Err") {
 				r.Check(k+"done[cancelled].context", r.D.D(CallArgs(c)[0]) == r.D.D(CallArgs(run)[1]), r.Where(c), "the context examined after Run is the one Run and the submitters were given: "+r.D.D(CallArgs(c)[0]))
 			}
 		case v == "p2":
@@ -419,15 +640,15 @@ func c20FetchTail(r *Run) {
 	// shared cancellable context
 	ctxTerm := r.D.D(CallArgs(run)[1])
 	r.Check(k+"context", glob("*new:context.Context#*", ctxTerm), r.Where(run), "Run gets "+ctxTerm)
-	r.ExpectStores(fn, k+"context.cancellable", strings.TrimPrefix(ctxTerm, "*"), "context.WithCancel(p1)#0", 1)
+	r.ExpectStores(tf, k+"context.cancellable", strings.TrimPrefix(ctxTerm, "*"), withCancel(0), 1)
 	var sub *ssa.Function
-	for _, af := range fn.AnonFuncs {
+	for _, af := range tf.AnonFuncs {
 		if len(CallsTo(af, c20ctl+"runSubmitter")) > 0 {
 			sub = af
 		}
 	}
 	if sub == nil {
-		r.Fail(k+"submitter", r.FnPos(fn), "undecided: no goroutine of fetchTail runs runSubmitter")
+		r.Fail(k+"submitter", r.FnPos(tf), "undecided: no goroutine of "+tf.Name()+" runs runSubmitter")
 	} else {
 		c := CallsTo(sub, c20ctl+"runSubmitter")[0]
 		r.ExpectArg(c, k+"submitter.context", 1, "*^"+strings.TrimPrefix(ctxTerm, "*"))
@@ -445,16 +666,16 @@ func c20FetchTail(r *Run) {
 			okCancel = len(reachableReturns(sub, reach)) == 0
 		}
 		r.Check(k+"submitter-error-cancels", okCancel, r.Where(c), "a submitter error always reaches cancel() of the shared context")
-		r.ExpectStores(fn, k+"cancel-func", "new:context.CancelFunc#*", "context.WithCancel(p1)#1", 1)
+		r.ExpectStores(tf, k+"cancel-func", "new:context.CancelFunc#*", withCancel(1), 1)
 		started := false
-		eachInstr(fn, func(in ssa.Instruction) {
+		eachInstr(tf, func(in ssa.Instruction) {
 			if g, ok := in.(*ssa.Go); ok {
 				if mc, ok := g.Call.Value.(*ssa.MakeClosure); ok && mc.Fn == ssa.Value(sub) {
 					started = true
 				}
 			}
 		})
-		r.Check(k+"submitters-started", started, r.FnPos(fn), "runSubmitter runs in goroutines started by fetchTail")
+		r.Check(k+"submitters-started", started, r.FnPos(tf), "runSubmitter runs in goroutines started by "+tf.Name())
 	}
 	// the batch handler forwards the batch it was given
 	var handler *ssa.Function
@@ -503,9 +724,19 @@ func c20Consistency(r *Run) {
 	// nil without a proof exactly for an empty destination or a disabled check,
 	// on sample destination sizes (the size is only compared with constants)
 	succ := sgOkReturns(fn)
+	// the terms under which the callee sees destination size, destination root hash and source
+	// STH: its parameters 2, 3, 4 — or, when the root travels as one struct, fields of a parameter
+	pSize, pHash, pSth := "p2", "p3", "p4"
+	if ft := r.P.Func(c20ctl + "fetchTail"); ft != nil {
+		if vcs := CallsTo(ft, c20ctl+"verifyConsistency"); len(vcs) == 1 {
+			if roles := c20ConsistencyRoles(r, vcs[0], c20RootShape(r, false)); roles.size != "" && roles.hash != "" && roles.sth != "" {
+				pSize, pHash, pSth = roles.size, roles.hash, roles.sth
+			}
+		}
+	}
 	for _, size := range []int64{0, 1, 7} {
 		for _, ncc := range []string{"T", "F"} {
-			s, bound := r.SgModel(fn, map[string]int64{"p2": size})
+			s, bound := r.SgModel(fn, map[string]int64{pSize: size})
 			b, err := r.sgBind(fn, sgBool("p0.opts.NoConsistencyCheck", ncc))
 			if err != nil {
 				r.Fail(k+"unproven-nil", r.FnPos(fn), "undecided: "+err.Error())
@@ -525,9 +756,9 @@ func c20Consistency(r *Run) {
 		return
 	}
 	r.ExpectArg(get, k+"proof.source", 0, "p0.ctClient")
-	r.ExpectArg(get, k+"proof.first", 2, "p2")
-	r.ExpectArg(get, k+"proof.second", 3, "p4.TreeSize")
-	for i, w := range []string{"g:rfc6962.DefaultHasher", "p2", "p4.TreeSize", "(*client.LogClient).GetSTHConsistency(*)#0", "p3", "p4.SHA256RootHash[:]"} {
+	r.ExpectArg(get, k+"proof.first", 2, pSize)
+	r.ExpectArg(get, k+"proof.second", 3, pSth+".TreeSize")
+	for i, w := range []string{"g:rfc6962.DefaultHasher", pSize, pSth + ".TreeSize", "(*client.LogClient).GetSTHConsistency(*)#0", pHash, pSth + ".SHA256RootHash[:]"} {
 		r.ExpectArg(ver, fmt.Sprintf("%sverify.arg%d", k, i), i, w)
 	}
 	for _, ret := range Returns(fn) {
@@ -544,6 +775,266 @@ func c20Consistency(r *Run) {
 		}
 	}
 	r.SgBlocked(fn, k+"verify-needs-proof", "proof.VerifyConsistency", []ssa.Instruction{ver}, sgNil("(*client.LogClient).GetSTHConsistency(*)#1", "non"))
+}
+
+// ---- how the destination root travels ------------------------------------------------------
+
+// c20Shape: the suffixes under which a caller of getRoot sees the decoded log root's tree size,
+// its root hash and the error: "#0" / "#1" / "#2" for three separate results, "#0.size" /
+// "#0.hash" / "#1" when size and hash are fields of one struct result.
+type c20Shape struct{ size, hash, err string }
+
+// c20RootShape reads getRoot's success return: which result (or field of a struct result built
+// for the return) is TreeSize and which is RootHash of the types.LogRootV1 that was decoded.
+// With record=true the finding is recorded as an obligation.  When it cannot be determined the
+// shape of the confirmed tree is returned (the dependent checks then fail on their own terms).
+func c20RootShape(r *Run, record bool) c20Shape {
+	def := c20Shape{"#0", "#1", "#2"}
+	fn := r.P.Func(c20plc + "getRoot")
+	if fn == nil {
+		if record {
+			r.Fn(c20plc + "getRoot") // records the missing anchor
+		}
+		return def
+	}
+	fail := func(why string) c20Shape {
+		if record {
+			r.Fail("getRoot:results", r.FnPos(fn), "undecided: "+why)
+		}
+		return def
+	}
+	var decoded *ssa.Alloc
+	for _, c := range CallsTo(fn, "(*types.LogRootV1).UnmarshalBinary") {
+		decoded = baseAlloc(CallArgs(c)[0])
+	}
+	if decoded == nil {
+		return fail("no local types.LogRootV1 is decoded with UnmarshalBinary")
+	}
+	classify := func(v ssa.Value) string {
+		u, ok := v.(*ssa.UnOp)
+		if !ok {
+			return ""
+		}
+		fa, ok := u.X.(*ssa.FieldAddr)
+		if !ok || fa.X != ssa.Value(decoded) {
+			return ""
+		}
+		if f := fieldOf(fa); f != nil && (f.Name() == "TreeSize" || f.Name() == "RootHash") {
+			return f.Name()
+		}
+		return ""
+	}
+	var got *c20Shape
+	for _, ret := range sgOkReturns(fn) {
+		vs := sgRetVals(ret)
+		sh := c20Shape{err: fmt.Sprintf("#%d", len(vs)-1)}
+		put := func(role, path string) {
+			switch role {
+			case "TreeSize":
+				if sh.size != "" {
+					sh.size = "?"
+				} else {
+					sh.size = path
+				}
+			case "RootHash":
+				if sh.hash != "" {
+					sh.hash = "?"
+				} else {
+					sh.hash = path
+				}
+			}
+		}
+		for i, v := range vs[:len(vs)-1] {
+			if role := classify(v); role != "" {
+				put(role, fmt.Sprintf("#%d", i))
+				continue
+			}
+			a := baseAlloc(v)
+			if a == nil || a.Referrers() == nil {
+				continue
+			}
+			if _, isStruct := a.Type().Underlying().(*types.Pointer).Elem().Underlying().(*types.Struct); !isStruct {
+				continue
+			}
+			// a struct built for the return: each field written once
+			for _, ref := range *a.Referrers() {
+				fa, ok := ref.(*ssa.FieldAddr)
+				if !ok || fa.Referrers() == nil {
+					continue
+				}
+				var sts []*ssa.Store
+				for _, r2 := range *fa.Referrers() {
+					if st, ok := r2.(*ssa.Store); ok && st.Addr == ssa.Value(fa) {
+						sts = append(sts, st)
+					}
+				}
+				if f := fieldOf(fa); f != nil && len(sts) == 1 {
+					put(classify(sts[0].Val), fmt.Sprintf("#%d.%s", i, f.Name()))
+				} else if len(sts) > 1 {
+					put("TreeSize", "?")
+				}
+			}
+			if len(WholeStores(a)) > 0 {
+				put("TreeSize", "?")
+			}
+		}
+		if sh.size == "" || sh.hash == "" || strings.Contains(sh.size+sh.hash, "?") {
+			return fail("a success return of getRoot does not deliver TreeSize and RootHash of the decoded log root, each exactly once")
+		}
+		if got != nil && *got != sh {
+			return fail("success returns of getRoot deliver the root in different places")
+		}
+		got = &sh
+	}
+	if got == nil {
+		return fail("getRoot has no success return")
+	}
+	if record {
+		r.Pass("getRoot:results", r.FnPos(fn), "a caller sees the decoded root's TreeSize as getRoot(…)"+got.size+", its RootHash as getRoot(…)"+got.hash+", the error as getRoot(…)"+got.err)
+	}
+	return *got
+}
+
+// c20Roles: the terms under which verifyConsistency reads the destination size, the
+// destination root hash and the source STH ("" = that value is not handed over).
+type c20Roles struct {
+	size, hash, sth string
+	via             map[string]string
+}
+
+func (ro c20Roles) how(role string) string {
+	if v := ro.via[role]; v != "" {
+		return " (" + v + ")"
+	}
+	return " — not found among the arguments"
+}
+
+// c20ConsistencyRoles matches the arguments of fetchTail's verifyConsistency call against what
+// getRoot and Prepare delivered.  An argument may be the value itself, or the whole struct
+// result of getRoot (the callee then reads the field).
+func c20ConsistencyRoles(r *Run, vc ssa.CallInstruction, sh c20Shape) c20Roles {
+	ro := c20Roles{via: map[string]string{}}
+	root := c20plc + "getRoot(*)"
+	set := func(role string, dst *string, term, via string) {
+		if *dst != "" {
+			*dst, ro.via[role] = "", "" // handed over twice: ambiguous
+			return
+		}
+		*dst, ro.via[role] = term, via
+	}
+	dup := map[string]bool{}
+	for j, a := range CallArgs(vc) {
+		d := r.D.D(a)
+		pj := fmt.Sprintf("p%d", j)
+		for _, x := range []struct {
+			role, suffix string
+			dst          *string
+		}{{"size", sh.size, &ro.size}, {"hash", sh.hash, &ro.hash}} {
+			whole, field, isField := strings.Cut(x.suffix, ".")
+			switch {
+			case glob(root+x.suffix, d):
+				if !dup[x.role] {
+					set(x.role, x.dst, pj, "argument "+fmt.Sprint(j))
+				}
+			case isField && glob(root+whole, d):
+				if !dup[x.role] {
+					set(x.role, x.dst, pj+"."+field, "field "+field+" of argument "+fmt.Sprint(j))
+				}
+			default:
+				continue
+			}
+			if *x.dst == "" {
+				dup[x.role] = true
+			}
+		}
+		if glob("(*scanner.Fetcher).Prepare(*)#0", d) {
+			if !dup["sth"] {
+				set("sth", &ro.sth, pj, "argument "+fmt.Sprint(j))
+			}
+			if ro.sth == "" {
+				dup["sth"] = true
+			}
+		}
+	}
+	return ro
+}
+
+// c20CopiedFrom sees through "x := y" for struct locals: when the only thing ever written to
+// the local x is one whole copy of another local y, made in a block that dominates `use`, and
+// neither y nor x is written from that block on, then x at `use` is y as it stands when the
+// copy's block is entered.  Returns (y, block of the copy); otherwise (x, use) unchanged.
+func c20CopiedFrom(fn *ssa.Function, x *ssa.Alloc, use *ssa.BasicBlock) (*ssa.Alloc, *ssa.BasicBlock) {
+	for depth := 0; depth < 3; depth++ {
+		ws := WholeStores(x)
+		if len(ws) != 1 || len(c20PartStores(x)) != 0 {
+			return x, use
+		}
+		ld, ok := ws[0].Val.(*ssa.UnOp)
+		if !ok || ld.Op != token.MUL {
+			return x, use
+		}
+		y, ok := ld.X.(*ssa.Alloc)
+		if !ok || y == x || !types.Identical(y.Type(), x.Type()) {
+			return x, use
+		}
+		cb := ws[0].Block()
+		if cb != ld.Block() || !cb.Dominates(use) {
+			return x, use
+		}
+		// y is only ever accessed directly (no pointer to it escapes)
+		for _, ref := range *y.Referrers() {
+			switch ref.(type) {
+			case *ssa.Store, *ssa.UnOp, *ssa.FieldAddr, *ssa.DebugRef:
+			default:
+				return x, use
+			}
+		}
+		// nothing is written to y from the copy's block on
+		after := map[*ssa.BasicBlock]bool{}
+		var visit func(b *ssa.BasicBlock)
+		visit = func(b *ssa.BasicBlock) {
+			if after[b] {
+				return
+			}
+			after[b] = true
+			for _, sb := range b.Succs {
+				visit(sb)
+			}
+		}
+		visit(cb)
+		for _, st := range append(WholeStores(y), c20PartStores(y)...) {
+			if after[st.Block()] {
+				return x, use
+			}
+		}
+		x, use = y, cb
+	}
+	return x, use
+}
+
+// c20PartStores: stores into components (fields, fields of fields, elements) of the allocation.
+func c20PartStores(a *ssa.Alloc) []*ssa.Store {
+	var out []*ssa.Store
+	var walk func(v ssa.Value, depth int)
+	walk = func(v ssa.Value, depth int) {
+		if depth > 4 || v.Referrers() == nil {
+			return
+		}
+		for _, ref := range *v.Referrers() {
+			switch y := ref.(type) {
+			case *ssa.FieldAddr:
+				walk(y, depth+1)
+			case *ssa.IndexAddr:
+				walk(y, depth+1)
+			case *ssa.Store:
+				if y.Addr == v && v != ssa.Value(a) {
+					out = append(out, y)
+				}
+			}
+		}
+	}
+	walk(a, 0)
+	return out
 }
 
 // ---- R5 ------------------------------------------------------------------------
@@ -563,13 +1054,17 @@ func c20Resume(r *Run) {
 		r.Fail(k+"options", r.Where(nf), "undecided: fetcher options "+r.D.D(CallArgs(nf)[1])+" are not a local copy")
 		return
 	}
+	// the options may be prepared in one local and handed over as a copy of it: the rules below
+	// then read the local that was copied, up to the point of the copy
+	stopAt := nf.Block()
+	fo, stopAt = c20CopiedFrom(fn, fo, stopAt)
 	name := r.D.allocName(fo)
 	r.ExpectStores(fn, k+"options.base", name, "p0.opts.FetcherOptions", 1)
-	size := c20plc + "getRoot(*)#0"
+	size := c20plc + "getRoot(*)" + c20RootShape(r, false).size
 	starts := r.StoresTo(fn, "&("+name+".StartIndex)")
 	ends := r.StoresTo(fn, "&("+name+".EndIndex)")
 	conts := r.StoresTo(fn, "&("+name+".Continuous)")
-	res, err := r.D.Table(fn, nil, map[*ssa.BasicBlock]bool{nf.Block(): true}, []RuleAtom{
+	res, err := r.D.Table(fn, nil, map[*ssa.BasicBlock]bool{stopAt: true}, []RuleAtom{
 		{Name: "cont", Pat: name + ".Continuous"},
 		{Name: "neg", OrdA: name + ".StartIndex", OrdB: "0"},
 		{Name: "beg", OrdA: name + ".StartIndex", OrdB: "p2"},
